@@ -24,13 +24,17 @@ BRANCHES = [
     "destruct.no-inventory", "destruct.inventory-hooks", "destruct.hook-enabled-the-dying-object",
     "destruct.hook-disabled-the-dying-object", "take",
     "clone.blueprint-heart-beat-switched-off", "clone.blueprint-has-no-heart-beat", "timer-fired", "heart_beats()",
+    "replace_program", "replace_programs:program-swapped", "error.after-self-destruct", "error.caught-by-catch", "reload_object", "enable_commands", "eval_cost-used", "timer_flags-set",
+    "chb.call.living:command_giver=ob", "chb.call.not-living:command_giver=0", "chb.call.eval_cost-was-full",
+    "chb.call.eval_cost-reset-after-use", "chb.timer_flags-without-HEARTBEAT:empty",
+    "chb.timer_flags-without-HEARTBEAT:list-kept",
 ]
 
 
 class C11(Prop):
     id = "C11"
     title = "heart_beat runs once per interval per enabled object; faults stay local"
-    lean_modules = ["NV.C11.Props", "NV.C11.Witness", "NV.C11.Trace", "NV.C11.Negative"]
+    lean_modules = ["NV.C11.Props", "NV.C11.Witness", "NV.C11.Search", "NV.C11.Trace", "NV.C11.Period", "NV.C11.Negative"]
     theorems = [
         "NV.C11.model_satisfies_spec",
         "NV.C11.hb_index_in_bounds",
@@ -64,6 +68,56 @@ class C11(Prop):
         "NV.C11.sim_disable",
         "NV.C11.sim_set",
         "NV.C11.sim_round",
+        "NV.C11.sim_reload",
+        "NV.C11.sim_tick",
+        "NV.C11.searchLoop_eq",
+        "NV.C11.searchBack_eq_idxOf",
+        "NV.C11.searchBack_none_iff",
+        "NV.C11.hbs_nodup",
+        "NV.C11.search_direction_unobservable",
+        "NV.C11.gen_backendOrder_eq",
+        "NV.C11.gen_timerSetsFlag_eq",
+        "NV.C11.gen_shbGuard_eq",
+        "NV.C11.gen_retuneStore_eq",
+        "NV.C11.gen_growCap_eq",
+        "NV.C11.gen_ctxSaveRestore_eq",
+        "NV.C11.gen_heartBeatsReversed_eq",
+        "NV.C11.gen_rmMove_eq",
+        "NV.C11.applyMove_eq_erase",
+        "NV.C11.gen_queryReturns_eq",
+        "NV.C11.gen_reloadOrder_eq",
+        "NV.C11.gen_cloneOrder_eq",
+        "NV.C11.gen_search_eq",
+        "NV.C11.gen_roundEntry_eq",
+        "NV.C11.gen_roundExit_eq",
+        "NV.C11.gen_roundSkip_eq",
+        "NV.C11.gen_callFrame_eq",
+        "NV.C11.gen_errOrder_eq",
+        "NV.C11.gen_errBlock_eq",
+        "NV.C11.timerFlagHeartbeat_val",
+        "NV.C11.errorHandler_eq_ref",
+        "NV.C11.callSetup_ref",
+        "NV.C11.callAfter_ref",
+        "NV.C11.finish_ref",
+        "NV.C11.tick_eq_ref",
+        "NV.C11.runRound_eq",
+        "NV.C11.quiet_body",
+        "NV.C11.quiet_round",
+        "NV.C11.quiet_ticks",
+        "NV.C11.missed_beat_rejected",
+        "NV.C11.serveN_period",
+        "NV.C11.quiet_step",
+        "NV.C11.accepted_quiet_when_off",
+        "NV.C11.judge_ok_implies_quiet_when_off",
+        "NV.C11.no_beat_while_heart_beats_off",
+        "NV.C11.accepted_ctx_clean",
+        "NV.C11.judge_ok_implies_ctx_clean",
+        "NV.C11.context_clean_every_beat",
+        "NV.C11.call_context_clean",
+        "NV.C11.call_context_accepted",
+        "NV.C11.caught_error_keeps_heart_beat",
+        "NV.C11.no_round_without_heartbeat_flag",
+        "NV.C11.round_entered_iff",
     ]
     witness_theorems = [
         "NV.C11.truncation_values",
@@ -80,30 +134,39 @@ class C11(Prop):
     search_n = 1500
     design_ref = "5/C11"
     technique = ("Lean 4 proof (refinement of the index-compensating round loop to an index-free reference "
-                 "semantics, induction over rounds; trace-level corollaries) + clang-AST translator for the decisive conditions/updates of "
-                 "set_heart_beat / f_set_heart_beat / call_heart_beat with bridging lemmas + model/implementation correspondence")
+                 "semantics, induction over rounds; trace-level corollaries) + clang-AST translator (symbolic execution of the "
+                 "decisive statements of set_heart_beat / f_set_heart_beat / call_heart_beat / query_heart_beat / error_handler / "
+                 "destruct_object / reload_object / clone_object into Lean definitions the model uses, bridging lemmas as "
+                 "obligations) + model/implementation correspondence")
     level_text = ("Lean 4 theorems about an executable model of call_heart_beat / set_heart_beat / query_heart_beat / "
-                  "error_handler / destruct / clone for all populations, heart_beat scripts and tick counts; the model is "
-                  "tied to the source by definitions regenerated from the clang AST on every run (index compensation, tick "
-                  "test/reset, clamp, argument saturation, loop exit, while condition - the model uses them, bridging lemmas are "
-                  "obligations), regenerated constants, and by running the real code (hook verif_tick) and the model on the same "
-                  "generated histories; the Lean specification oracle judges every implementation trace")
+                  "error_handler (catch branch and switch-off) / destruct_object (inventory hooks incl. errors in them) / "
+                  "clone_object / reload_object / replace_program for all populations, heart_beat scripts, timer_flags and tick "
+                  "counts; the model is tied to the source by definitions regenerated from the clang AST on every run (round "
+                  "frame with the timer_flags guard, index compensation, search loop, memmove, tick test/reset, statements around "
+                  "the call, clamp, retune, growth, argument saturation, loop exit, while condition, error_handler block and "
+                  "order, destruct / reload / clone order - the model uses them, bridging lemmas are obligations), regenerated "
+                  "constants, and by running the real code (hook verif_tick) and the model on the same generated histories; the "
+                  "Lean specification oracle (incl. the clause 'every heart_beat starts with a clean command_giver / eval cost') "
+                  "judges every implementation trace")
     level_note = ("trusted: Lean kernel; extract.py + props/c11_extract.py (symbolic execution of the listed statements, grammar "
                   "in its header); the correspondence harness (differential, only the generated histories); "
-                  "heart_beat bodies are oracle scripts; the timer thread is an explicit 'flag' operation; command_giver / "
-                  "eval_cost handling around the call is not modelled")
+                  "heart_beat bodies are oracle scripts; the timer thread is an explicit 'flag' operation; the top of the "
+                  "backend loop (remove_destructed_objects / replace_programs, eval_cost reset) is reproduced by the harness; "
+                  "command_giver after a round / after restore_context is modelled but not observed")
     rule = ("cases = corpus + boundary list + seeded random histories: populations of 1..6 clones of two blueprints "
-            "(with / without heart_beat function), per-beat and one-shot heart_beat scripts of set_heart_beat(self/other, "
-            "0/1/n/out-of-range), query, destruct(self/other), clone(+enable), error, timer-fired and heart_beats(), the "
-            "same operations between ticks, 3..25 ticks; a case is non-trivial when its trace has a beat; distinct = "
-            "distinct canonical implementation trace")
-    not_covered = ["error_handler's switch-off and the list search / memmove of set_heart_beat are tied by correspondence only (not extracted)",
-                   "timer_flags without TIMER_FLAG_HEARTBEAT (no round at all), perc_hb_probes / num_hb_calls statistics",
-                   "replace_program() is not scripted (call_heart_beat re-reads ob->prog->heart_beat on every visit: same branch as /c11/nohb)",
+            "(with / without heart_beat function), some living, some carrying others; per-beat and one-shot heart_beat scripts "
+            "of set_heart_beat(self/other, 0/1/n/out-of-range), query, destruct(self/other, + error afterwards), clone(+enable), "
+            "reload_object(self/other), replace_program, error, caught error, enable_commands, eval-cost use, timer-fired and "
+            "heart_beats(); move_or_destruct hooks incl. failing ones; the same operations between ticks; timer_flags changes; "
+            "3..25 ticks; a case is non-trivial when its trace has a beat; distinct = distinct canonical implementation trace")
+    not_covered = ["the direction of set_heart_beat's search loop is proved unobservable (entries unique per object) instead of being modelled",
+                   "perc_hb_probes / num_hb_calls statistics, heart_beat_status()",
                    "truncation of a round by the real timer thread is an explicit scripted operation (the thread is C19)",
-                   "command_giver / current_interactive / eval_cost handling around the heart_beat call",
-                   "reload_object() (also calls set_heart_beat(ob, 0)) is not scripted",
-                   "errors caught by catch() inside a heart_beat (they do not reach the uncaught branch of error_handler)"]
+                   "command_giver after a completed / aborted round (restore_context) is tied by a shape obligation only; current_interactive is not modelled",
+                   "timer_flags bits RESET / CALLOUT run look_for_objects_to_swap / call_out in the harness but nothing is pending there (C10 covers call_out)",
+                   "restrict_destruct refusals, inventory items that move away in move_or_destruct, nested inventories",
+                   "wrap of the short countdown of an object without heart_beat function (needs 32769 ticks, not observable: such an object is never called)",
+                   "errors in the master's error handler (in_error re-entry)"]
 
     def gen_extra(self, ctx, bdir):
         """T4: the decisive conditions / updates of set_heart_beat, f_set_heart_beat and call_heart_beat, recovered from
@@ -187,6 +250,16 @@ class C11(Prop):
                                                           "script o3 md hbs", "tick", "do o0 dest,o2", "do o0 hbs", "tick"])
         mk("item-destructs-its-carrier-in-own-beat", carrier + ["do o0 shb,o3,1", "script o3 md shb,o2,1;hbs",
                                                                  "script o3 hb:0 dest,o2;hbs;q,o3", "tick", "do o0 hbs", "tick"])
+        # --- an error raised inside move_or_destruct() leaves destruct_object: the carrier survives, the caller's
+        #     heart beat (and only that) is switched off when the destruct was issued from a heart_beat
+        mk("hook-error-at-top-level", carrier + ["script o3 md shb,o5,0;err;shb,o5,1", "tick", "do o0 dest,o2", "do o0 hbs",
+                                                  "do o0 q,o2", "tick", "do o0 dest,o2", "tick"])
+        mk("hook-error-inside-heart-beat", carrier + ["script o3 md shb,o2,2;err", "script o4 hb:1 dest,o2;hbs", "tick", "tick",
+                                                       "do o0 hbs", "tick", "tick"])
+        mk("hook-error-second-item", carrier + ["do o2 take,o4", "script o3 md err", "script o4 md hbs;cerr", "tick",
+                                                 "do o5 dest,o2", "do o0 hbs", "do o0 dest,o3", "do o5 dest,o2", "do o0 hbs", "tick"])
+        mk("hook-error-carrier-destructs-itself-in-beat", carrier + ["script o3 md err", "script o2 hb:0 dest,o2;hbs", "tick",
+                                                                      "do o0 hbs", "tick"])
         mk("take-refusals", ["do o0 clone,o2,0,1", "do o0 clone,o3,0,1", "do o0 clone,o4,0,1", "do o2 take,o3", "do o3 take,o4",
                              "do o4 take,o2", "do o2 take,o2", "do o2 take,o0", "do o2 take,o9", "do o4 take,o3",
                              "do o0 dest,o2", "do o4 take,o3", "tick"])
@@ -205,6 +278,59 @@ class C11(Prop):
                                                             "tick", "tick"])
                 mk("last-removed-and-reenabled-n%d" % n, pop + ["script o2 hb:1 shb,o%d,0;shb,o%d,1;hbs" % (last, last),
                                                                 "tick", "tick", "tick"])
+        # --- errors caught inside a heart_beat never reach the switch-off
+        mk("catch-in-beat", pop3 + ["script o3 hb:* cerr;hbs", "tick", "tick", "do o0 hbs", "do o0 q,o3"])
+        mk("catch-then-uncaught", pop3 + ["script o3 hb:0 cerr;cerr;err", "script o2 hb:1 cerr", "tick", "do o0 hbs", "tick", "tick"])
+        mk("catch-at-top-level-after-aborted-round", pop3 + ["script o2 hb:0 err", "tick", "do o0 shb,o2,1", "do o3 cerr",
+                                                             "do o0 hbs", "tick"])
+        # --- reload_object: set_heart_beat (ob, 0), variables cleared (the script counter restarts), create() again
+        for pos in (2, 3, 4):
+            mk("reload-self-in-beat-o%d" % pos, pop3 + ["script o%d hb:0 reload,o%d,1;hbs" % (pos, pos), "tick", "tick",
+                                                         "do o0 hbs", "tick"])
+            mk("reload-o%d-by-o3" % pos, pop3 + ["script o3 hb:1 reload,o%d,2;hbs;q,o%d" % (pos, pos), "tick", "tick", "tick",
+                                                  "tick"])
+        mk("reload-to-zero-and-back", pop3 + ["script o2 hb:0 reload,o4,0;q,o4", "tick", "do o0 hbs", "do o3 reload,o4,3",
+                                              "do o0 reload,o0,1", "do o0 reload,o9,1", "tick", "tick", "tick", "tick"])
+        mk("reload-nohb-and-dead", ["do o0 clone,o2,1,1", "do o0 clone,o3,0,1", "do o0 reload,o2,1", "do o0 dest,o3",
+                                    "do o0 reload,o3,1", "do o0 hbs", "tick", "tick"])
+        mk("reload-clamps", ["do o0 clone,o2,0,1", "do o0 reload,o2,40000", "do o0 reload,o2,-3", "do o0 q,o2",
+                             "do o0 reload,o2,4294967297", "do o0 q,o2", "tick"])
+        # --- an error raised by an object that destructed itself in its own heart_beat: error_handler calls
+        #     set_heart_beat (current_heart_beat, 0) on a destructed object (the O_DESTRUCTED return)
+        mk("error-after-self-destruct", pop3 + ["script o3 hb:0 dest,o3;err;hbs", "tick", "do o0 hbs", "tick", "do o0 q,o3"])
+        mk("error-after-self-destruct-first-and-last", pop3 + ["script o2 hb:0 dest,o2;err", "script o4 hb:1 shb,o4,0;dest,o4;err",
+                                                               "tick", "tick", "tick", "do o0 hbs"])
+        mk("error-after-self-destruct-with-inventory", pop3 + ["do o3 take,o4", "script o4 md shb,o3,1;hbs",
+                                                               "script o3 hb:0 dest,o3;err", "tick", "do o0 hbs", "tick"])
+        # --- replace_program: the program is swapped at the top of the backend loop; call_heart_beat re-reads
+        #     ob->prog->heart_beat on every visit, the entry stays on the list and is counted down but never called
+        mk("replace-program-in-own-beat", pop3 + ["script o3 hb:0 rp;hbs", "tick", "tick", "do o0 hbs", "do o0 q,o3", "tick"])
+        mk("replace-program-between-ticks", pop3 + ["tick", "do o2 rp", "do o4 rp", "do o2 rp", "tick", "tick", "do o2 rp",
+                                                    "do o0 rp", "do o0 hbs"])
+        mk("replace-program-then-reenable-and-reload", pop3 + ["do o3 rp", "tick", "do o3 shb,o3,0", "do o3 shb,o3,1",
+                                                               "do o0 reload,o3,1", "tick", "do o0 hbs", "tick"])
+        mk("replace-program-pending-object-destructed", pop3 + ["script o2 hb:0 rp;dest,o2", "script o3 hb:0 rp",
+                                                                "tick", "tick", "do o0 hbs"])
+        mk("replace-program-nohb-kind-and-living", ["do o0 clone,o2,1,1", "do o0 clone,o3,0,1", "do o3 living", "do o2 rp",
+                                                    "do o3 rp", "tick", "do o0 clone,o4,0,1", "tick", "tick"])
+        mk("replace-program-while-timer-flags-off", pop3 + ["tflags 0", "do o2 rp", "tick", "tflags 2", "tick", "tick"])
+        # --- every heart_beat starts from a clean context: command_giver only for living objects, fresh eval cost
+        mk("context-living-and-not", pop3 + ["do o3 living", "script o2 hb:* burn", "script o3 hb:* burn;living", "tick", "tick"])
+        mk("context-after-error-of-living-object", pop3 + ["do o2 living", "script o2 hb:0 burn;err", "tick", "tick",
+                                                           "do o0 shb,o2,1", "tick"])
+        mk("context-living-becomes-living-in-beat", pop3 + ["script o2 hb:0 living", "script o3 hb:0 burn;burn", "tick", "tick"])
+        mk("context-reload-clears-living", pop3 + ["do o3 living", "tick", "do o0 reload,o3,1", "tick", "do o3 living", "tick"])
+        mk("context-living-item-and-carrier", pop3 + ["do o2 living", "do o3 living", "do o2 take,o3", "tick", "do o4 take,o2",
+                                                      "tick", "do o0 dest,o4", "tick"])
+        # --- timer_flags without TIMER_FLAG_HEARTBEAT: no round; the cursor variables keep stale values
+        mk("timer-flags-off", pop3 + ["tick", "tflags 0", "tick", "tick", "do o0 hbs", "tflags 2", "tick"])
+        mk("timer-flags-off-removals-on-stale-cursor", pop3 + ["script o3 hb:0 err", "tick", "tflags 0", "tick",
+                                                                "do o0 shb,o2,0", "do o0 shb,o4,0", "do o0 clone,o5,0,1",
+                                                                "do o0 shb,o5,0", "do o0 clone,o6,0,2", "do o0 hbs", "tick",
+                                                                "tflags 2", "tick", "tick", "do o0 hbs"])
+        mk("timer-flags-other-bits", pop3 + ["tflags 4", "tick", "tflags 6", "tick", "tflags 0", "tick", "tflags 2", "tick"])
+        mk("timer-flags-off-empty-list", ["tflags 0", "tick", "do o0 clone,o2,0,1", "tick", "tflags 2", "tick"])
+        mk("timer-fired-then-flags-off", pop3 + ["do o2 flag", "tflags 0", "tick", "tflags 2", "tick"])
         mk("empty", ["tick", "do o0 hbs", "tick"])
         mk("dead-and-unknown", ["do o0 clone,o2,0,1", "do o0 dest,o2", "do o0 dest,o2", "do o0 shb,o2,1", "do o0 q,o9",
                                 "do o2 hbs", "do o9 hbs", "do o0 dest,o0", "do o0 dest,o1", "do o0 clone,o2,0,1", "tick"])
@@ -214,7 +340,7 @@ class C11(Prop):
         ops = []
         for _ in range(n if n is not None else rng.weighted([(1, 6), (2, 4), (3, 2), (5, 1)])):
             k = rng.weighted([("shb", 12), ("q", 2), ("dest", 4), ("clone", 2), ("err", 2 if allow_err else 0),
-                              ("flag", 1), ("hbs", 2), ("take", 1)])
+                              ("flag", 1), ("hbs", 2), ("take", 1), ("cerr", 2), ("reload", 3), ("living", 1), ("burn", 1), ("rp", 1)])
             t = rng.choice(ids["all"])
             if k == "shb":
                 ops.append("shb,o%d,%d" % (t, rng.weighted(INTERVALS)))
@@ -222,8 +348,12 @@ class C11(Prop):
                 ops.append("q,o%d" % t)
             elif k == "dest":
                 ops.append("dest,o%d" % t)
+                if allow_err and rng.chance(1, 4):
+                    ops.append("err")      # reaches error_handler even when the object has just destructed itself
             elif k == "take":
                 ops.append("take,o%d" % t)
+            elif k == "reload":
+                ops.append("reload,o%d,%d" % (t, rng.weighted([(1, 6), (2, 3), (0, 2), (3, 1), (-1, 1), (40000, 1)])))
             elif k == "clone":
                 ids["next"] += 1
                 new = ids["next"] if rng.chance(14, 15) else rng.choice(ids["all"])
@@ -235,7 +365,8 @@ class C11(Prop):
         return ops
 
     def gen_case(self, rng, cid):
-        npop = rng.range(1, 6)
+        # now and then a population that crosses the HEART_BEAT_CHUNK boundary (second allocation) inside a random history
+        npop = rng.range(1, 6) if not rng.chance(1, 25) else rng.range(35, 42)
         ids = {"all": [0, 1], "next": 1}
         body = []
         if rng.chance(1, 5):
@@ -256,7 +387,8 @@ class C11(Prop):
                 body.append("do o%d take,o%d" % (c, i))
                 hops = []
                 for _ in range(rng.range(1, 3)):
-                    k = rng.weighted([("wake", 5), ("shb", 3), ("hbs", 1), ("q", 1), ("flag", 1), ("clone", 1)])
+                    k = rng.weighted([("wake", 5), ("shb", 3), ("hbs", 1), ("q", 1), ("flag", 1), ("clone", 1), ("err", 1),
+                                      ("cerr", 1)])
                     if k == "wake":
                         hops.append("shb,o%d,%d" % (c, rng.weighted([(1, 5), (2, 2), (0, 1)])))
                     elif k == "shb":
@@ -272,7 +404,7 @@ class C11(Prop):
                 body.append("script o%d md %s" % (i, ";".join(hops)))
         # heart_beat scripts (self is much more likely than a stranger)
         pop = list(ids["all"])
-        for _ in range(rng.range(0, 2 * npop)):
+        for _ in range(rng.range(0, 2 * min(npop, 8))):
             o = rng.choice(pop)
             key = "hb:*" if rng.chance(1, 5) else "hb:%d" % rng.weighted([(0, 6), (1, 4), (2, 2), (3, 1)])
             sub = {"all": ids["all"], "next": ids["next"]}
@@ -284,7 +416,14 @@ class C11(Prop):
                 if x not in ids["all"]:
                     ids["all"].append(x)
             body.append("script o%d %s %s" % (o, key, ";".join(ops)))
+        for o in pop0:
+            if rng.chance(1, 4):
+                body.append("do o%d living" % o)
         for _ in range(rng.range(3, 25)):
+            if rng.chance(1, 25):
+                # timer_flags: heart beats switched off / on again globally (bit TIMER_FLAG_HEARTBEAT = 2), with and
+                # without the call_out bit
+                body.append("tflags %d" % rng.weighted([(0, 4), (2, 4), (4, 2), (6, 2)]))
             if rng.chance(3, 5):
                 body.append("tick")
                 if rng.chance(1, 8):
@@ -296,7 +435,7 @@ class C11(Prop):
                 o = rng.choice(ids["all"])
                 for op in self.gen_ops(rng, ids, n=1):
                     body.append("do o%d %s" % (o, op))
-        body += ["tick", "do o0 hbs", "tick"]
+        body += ["tick", "do o0 hbs", "tflags 2", "tick", "do o0 hbs", "tick"]
         return E.Case(cid, body, {"origin": "generated"})
 
     def generate(self, rng, n, tier):
@@ -310,7 +449,7 @@ class C11(Prop):
         ctx = {}
         for tags in out.values():
             for t in tags:
-                base = t.split(":", 1)[1] if t.split(":", 1)[0] in ("create", "destruct", "error") else t
+                base = t.split(":", 1)[1] if t.split(":", 1)[0] in ("create", "destruct", "error", "reload") else t
                 cnt[base] = cnt.get(base, 0) + 1
                 if base != t:
                     k = t.split(":", 1)[0]
